@@ -1,6 +1,7 @@
 import Woodpile.Driver.Util
 import Woodpile.Driver.ReadN
 import Woodpile.Model.Iovec
+import Woodpile.Model.IovecApi
 import Woodpile.Gen.Consts
 
 /-
@@ -99,8 +100,180 @@ def handle (pfx : Char) (t : String) : Option Nat :=
   | c :: rest => if c = pfx then (String.ofList rest).toNat? else none
   | [] => none
 
+
+/-! ### Public-API completion (track `apigaps`): op words for the methods of `Model/IovecApi.lean`
+
+`stepApi` answers `none` for every word it does not know; `step` below tries it first. -/
+
+def fmtBytes (bs : List UInt8) : String := if bs.length ≤ 16 then toHex bs else digest bs
+
+/-- register one fresh caller buffer per hex string, return the borrowed slices covering them -/
+def lendBufs (w : World) (bufs : List (List UInt8)) : World × List Slice := w.addExts bufs
+
+/-- the slice argument of `is_last`: `s<k>` = anchored slice k, `f<i>` / `l<i>` = first / last slice of
+iovec i's stable prefix; `some none` = there is no such slice -/
+def sliceArg (w : World) (t : String) : Option (Option Slice) :=
+  match handle 's' t, handle 'f' t, handle 'l' t with
+  | some k, _, _ => (w.aslice k).map (fun a => some a.slice)
+  | none, some i, _ => match w.iov i with
+    | some v => v.stablePrefix.map (·.head?)
+    | none => none
+  | none, none, some i => match w.iov i with
+    | some v => v.stablePrefix.map (·.getLast?)
+    | none => none
+  | _, _, _ => none
+
+def stepApi (s : St) (ws : List String) : Option (St × List String) :=
+  let w := s.w
+  let bad : Option (St × List String) := some (s, ["bad-op"])
+  match ws with
+  | ["new_default"] => let (w', _) := w.addIov Iov.empty; some (ok s w')
+  | ["s_default"] => let (w', _) := w.addASlice ASlice.empty; some (ok s w')
+  | ["bref_default", v] =>
+    match handle 'v' v with
+    | some i => match w.iov i with
+      | some _ => let (w', _) := w.addBref none; some (ok s w' ["R len=0"] (touched := some i))
+      | none => bad
+    | none => bad
+  | ["a_clone", x] =>
+    match handle 'a' x, handle 'v' x with
+    | some j, _ => match w.arena j with
+      | some ar => let (w', _) := w.addArena (arenaClone ar); some (ok s w')
+      | none => bad
+    | none, some i => match w.iov i with
+      | some v => let (w', _) := w.addArena (arenaClone v.arena); some (ok s w' (touched := some i))
+      | none => bad
+    | _, _ => bad
+  | [op, hexes] =>
+    if op = "from_iter" || op = "from_iter_ref" then
+      match parseHexList hexes with
+      | some bufs =>
+        let (w', slices) := lendBufs w bufs
+        let (w'', _) := if op = "from_iter" then w'.fromIter slices else w'.fromIterRef slices
+        some (ok s w'')
+      | none => bad
+    else
+    match handle 'v' hexes with
+    | some i =>
+      match w.iov i with
+      | none => if op = "front" || op = "iter" || op = "try_stable" || op = "sc_pop" then bad else none
+      | some v =>
+        if op = "front" then
+          match v.front with
+          | some none => some (ok s w ["R front=none"] (touched := some i))
+          | some (some sl) => some (ok s w ["R front=" ++ fmtSlice sl ++ " bytes=" ++ fmtBytes (w.sliceBytes sl)] (touched := some i))
+          | none => some (panic s)
+        else if op = "iter" then
+          match v.iter with
+          | some ss => some (ok s w ["R iter n=" ++ toString ss.length ++ " at=" ++ fmtSlices ss ++ " bytes="
+              ++ fmtBytes (ss.flatMap w.sliceBytes)] (touched := some i))
+          | none => some (panic s)
+        else if op = "try_stable" then
+          some (ok s w ["R " ++ (if v.tryStable then "ok" else "err") ++ " len=" ++ toString v.slices.length
+            ++ " size=" ++ toString v.totalSize] (touched := some i))
+        else if op = "sc_pop" then
+          match w.scPop i with
+          | some (st, w') => some (ok s w' ["R " ++ (if st then "ok" else "err")] (touched := some i))
+          | none => some (panic s)
+        else none
+    | none => none
+  | ["new_from_slices_arena", a, hexes] =>
+    match handle 'a' a, parseHexList hexes with
+    | some j, some bufs =>
+      let (w', slices) := lendBufs w bufs
+      match w'.newFromSlicesArena j slices with
+      | some (w'', _) => some (ok s w'')
+      | none => bad
+    | _, _ => bad
+  | ["is_last", x, t] =>
+    match sliceArg w t with
+    | none => bad
+    | some none =>
+      -- the arena handle must still be valid
+      match handle 'v' x, handle 'a' x with
+      | some i, _ => if (w.iov i).isSome then some (ok s w ["R none"]) else bad
+      | none, some j => if (w.arena j).isSome then some (ok s w ["R none"]) else bad
+      | _, _ => bad
+    | some (some sl) =>
+      let r := match handle 'v' x, handle 'a' x with
+        | some i, _ => w.isLastIov i sl
+        | none, some j => w.isLastArena j sl
+        | _, _ => none
+      match r with
+      | some b => some (ok s w ["R " ++ (if b then "1" else "0")])
+      | none => bad
+  | [op, v, arg] =>
+    match handle 'v' v with
+    | none => none
+    | some i =>
+      if !(op = "flatten_into" || op = "stable" || op = "sc_consume" || op = "sc_advance" || op = "sc_read"
+            || op = "c_reserve") then none else
+      match w.iov i with
+      | none => bad
+      | some iv =>
+        if op = "flatten_into" then
+          match parseHex arg with
+          | some dst =>
+            match w.flattenInto iv dst with
+            | some (okf, bytes) => some (ok s w ["R " ++ (if okf then "ok " else "err ") ++ fmtBytes bytes] (touched := some i))
+            | none => some (panic s)
+          | none => bad
+        else if op = "stable" then
+          match parseHex arg with
+          | some dst =>
+            if iv.tryStable then
+              match w.stableIovs iv, w.stableFlatten iv, w.stableFlattenInto iv dst with
+              | some ss, some fl, some into =>
+                some (ok s w ["R ok iovs=" ++ fmtSlices ss ++ " flat=" ++ fmtBytes fl ++ " into=" ++ fmtBytes into] (touched := some i))
+              | _, _, _ => some (panic s)
+            else
+              match iv.stablePrefix with
+              | some ss => some (ok s w ["R err size=" ++ toString iv.totalSize ++ " iovs=" ++ fmtSlices ss] (touched := some i))
+              | none => some (panic s)
+          | none => bad
+        else
+          match arg.toNat? with
+          | none => bad
+          | some k =>
+            if op = "sc_consume" then
+              match w.scConsume i k with
+              | some (st, w', n) => some (ok s w' ["R " ++ (if st then "ok " else "err ") ++ toString n] (touched := some i))
+              | none => some (panic s)
+            else if op = "sc_advance" then
+              match w.scAdvance i k with
+              | some (st, w', n) => some (ok s w' ["R " ++ (if st then "ok " else "err ") ++ toString n] (touched := some i))
+              | none => some (panic s)
+            else if op = "sc_read" then
+              match w.scRead i k with
+              | some (st, w', bytes) => some (ok s w' ["R " ++ (if st then "ok " else "err ") ++ toHex bytes] (touched := some i))
+              | none => some (panic s)
+            else
+              -- c_reserve: `consumer().arena().ensure_capacity(k)`
+              let (a', nx) := ensureCapacity w.tun iv.arena w.next k
+              some (ok s ({ w with next := nx }.setIov i (some { iv with arena := a' })) (touched := some i))
+  | [op, v, mode, hex] =>
+    if !(op = "sink_copy" || op = "sink_borrow") then none else
+    if !(mode = "dyn" || mode = "ref" || mode = "refdyn") then bad else
+    match handle 'v' v, parseHex hex with
+    | some i, some bs =>
+      if (w.iov i).isNone then bad else
+      if op = "sink_copy" then
+        match w.appendCopy i bs with
+        | some w' => some (ok s w' (touched := some i))
+        | none => some (panic s)
+      else
+        let (w1, id) := w.addExt bs
+        match w1.appendBorrow i ⟨.ext id, 0, bs.length⟩ with
+        | some w' => some (ok s w' (touched := some i))
+        | none => some (panic s)
+    | _, _ => bad
+  | _ => none
+
 def step (s : St) (ws : List String) : St × List String :=
   if s.dead then (s, []) else
+  match stepApi s ws with
+  | some r => r
+  | none =>
   let w := s.w
   match ws with
   | ["new"] => let (w', _) := w.addIov Iov.empty; ok s w'
